@@ -32,6 +32,7 @@ RULE += (' Also: the multi-input tools of C07 (handle at every position; ValueEr
 RULE += (' Also: a tool polling a stale group of a groupby over the shared handle.')
 RULE += (' Also: a tool running a groupby whose key fails once over the shared handle.')
 RULE += (' Also: athrow as a signalling channel through scoped and borrowed handles against gen.throw on a shared generator; generator-like class sources without aclose.')
+RULE += (' Also: an ended scope context cannot be entered again; the underlying iterator is closed exactly once.')
 ASSUMPTIONS = ["iterables without aclose get a neutral context: only the in-block sequence semantics are checked for them",
                "tool laziness is C05's concern; the stdlib twin predicts how many items each tool takes"]
 EXHAUSTIVE_SUBSPACES = 'nested scopes of depth 2..3 left in every order x 3 underlying kinds x 0..2 items taken'
@@ -374,6 +375,16 @@ def run_manual(case, stats):
                             viols.append({"key": "scoped_iter/outer-handle-dead-after-inner-exit",
                                           "msg": f"{head}: handle of level {lv} is dead after only inner scopes {sorted(exited)} ended"})
                             return
+        # a scope that has ended stays ended: its context object is not entered a second time (a retry loop re-using
+        # it) - and if it were, leaving it again must not close the underlying iterator a second time
+        if set(case["order"]) == set(range(case["depth"])):
+            try:
+                await ctxs[0].__aenter__()
+            except RuntimeError:
+                stats["scope_reuse_after_its_end_refused"] += 1
+            else:
+                await ctxs[0].__aexit__(None, None, None)
+                stats["scope_reuse_after_its_end_accepted"] += 1
         if case["flav"] in CLASS_CLOSABLE + ("slowclose",) and st.closed != 1:
             viols.append({"key": "scoped_iter/close-count", "msg": f"{head}: underlying aclose called {st.closed} times"})
 
